@@ -11,7 +11,11 @@
     [holds4] (C04, see C04/Corr.v) is defined there from the same case type. *)
 From V Require Import Base.Util Gql.Ast C03.Model C03.Spec.
 
-Record case := mkCase { c_schema : tsdoc; c_doc : opdoc; c_out : list err }.
+(** [c_full]: read the rules on *every* syntactic position ([rule_ok]) instead of on the positions a
+    spread-following validator reaches ([rule_ok_vis]). The harness sets it only on the second copy of a
+    document it has itself built to exhibit one of the known blind spots; every document is judged with
+    [c_full = false]. *)
+Record case := mkCase { c_schema : tsdoc; c_doc : opdoc; c_out : list err; c_full : bool }.
 
 Definition optype_eqb' := optype_eqb.
 Definition tkind_eqb (a b : tkind) : bool :=
@@ -103,10 +107,12 @@ Definition kind_belongs (r : rule) (m : msg) : bool :=
       - exactly one: the implementation reports a diagnostic of a kind belonging to that rule;
       - several: the implementation reports at least one diagnostic (one fault may legitimately hide
         another, e.g. nothing below an unknown field is typed). *)
-Definition violated (S : tsdoc) (D : opdoc) : list rule := filter (fun r => negb (rule_ok S D r)) all_rules.
+Definition violated (full : bool) (S : tsdoc) (D : opdoc) : list rule :=
+  if full then filter (fun r => negb (rule_ok S D r)) all_rules
+  else let vs := vis_doc_sites S D in filter (fun r => negb (rule_ok_vis_on S D vs r)) all_rules.
 
 Definition holds (c : case) : bool :=
-  match violated (c_schema c) (c_doc c) with
+  match violated (c_full c) (c_schema c) (c_doc c) with
   | [] => true
   | [r] => existsb (fun e => kind_belongs r (e_msg e)) (c_out c)
   | _ => match c_out c with [] => false | _ => true end
